@@ -498,7 +498,7 @@ class C02(PropertyCheck):
                     "pixel boundary line; scales/origins/radii/angles are sampled, not enumerated",
     }
     # loop ties (DESIGN §12): regenerated from the source on every run, tie theorems proved for all sizes
-    loop_tie_modules = ["LoopsShapes"]
+    loop_tie_modules = ["LoopsShapes", "LoopsShapes2"]
     modelled_functions = [
         "autoarray/geometry/geometry_util.py:central_pixel_coordinates_1d_from",
         "autoarray/geometry/geometry_util.py:central_scaled_coordinate_1d_from",
